@@ -507,11 +507,11 @@ Proof.
   - cbn [keys map fst] in Hs. pose proof Hs as Hs0. apply ksorted_tail in Hs as [Hs Hf].
     destruct (k <? k') eqn:E1.
     + apply N.ltb_lt in E1. constructor; [exact Hs0|].
-      constructor; [exact E1|]. rewrite Forall_forall in *. intros x Hx. specialize (Hf x Hx). lia.
+      constructor; [exact E1|]. rewrite Forall_forall in *. intros x Hx. specialize (Hf x Hx). cbn [fst]. lia.
     + destruct (k =? k') eqn:E2.
       * apply N.eqb_eq in E2. subst k'. constructor; assumption.
       * apply N.ltb_ge in E1. apply N.eqb_neq in E2. constructor; [apply IH, Hs|].
-        apply d_put_lb; [lia|exact Hf].
+        apply d_put_lb; [cbn [fst]; lia|exact Hf].
 Qed.
 
 Lemma d_del_lb x k d : Forall (N.lt x) (keys d) -> Forall (N.lt x) (keys (d_del k d)).
@@ -540,7 +540,7 @@ Proof.
   assert (H : forall l acc, (length (fold_left (fun m e => e_insert (fst e) (snd e) m) l acc) <= length acc + length l)%nat).
   { induction l as [|e l IH]; intros acc; cbn [fold_left length]; [lia|].
     specialize (IH (e_insert (fst e) (snd e) acc)). pose proof (e_insert_len (fst e) (snd e) acc). lia. }
-  specialize (H log []). cbn [length] in H. lia.
+  exact (H log []).
 Qed.
 
 Lemma m_has_get q m :
@@ -576,20 +576,20 @@ Section Partial.
         unfold e_put in Hc at 2. cbn [e_log] in Hc. rewrite app_length in Hc. cbn [length] in Hc. lia. }
       rewrite Hc. unfold inv. cbn [m_maxp m_static m_edits e_put e_log].
       repeat split; try assumption.
-      + rewrite app_length. cbn [length]. lia.
-      + apply d_put_sorted, Hs.
-      + intros q. unfold m_get. cbn [m_edits m_static]. 
+      all: try (rewrite app_length; cbn [length]; lia).
+      all: try (apply d_put_sorted, Hs).
+      intros q. unfold m_get. cbn [m_edits m_static]. 
         change {| e_log := e_log (m_edits m) ++ [(k, Some v)]; e_cp := e_cp (m_edits m) |} with (e_put k (Some v) (m_edits m)).
         rewrite e_view_put, e_get_insert, d_get_put. destruct (k =? q); [reflexivity|]. apply Hget.
     - unfold delete, inv. cbn [m_maxp m_static m_edits e_put e_log].
       repeat split; try assumption.
-      + rewrite app_length. cbn [length]. lia.
-      + apply d_del_sorted, Hs.
-      + intros q. unfold m_get. cbn [m_edits m_static].
+      all: try (rewrite app_length; cbn [length]; lia).
+      all: try (apply d_del_sorted, Hs).
+      intros q. unfold m_get. cbn [m_edits m_static].
         change {| e_log := e_log (m_edits m) ++ [(k, None)]; e_cp := e_cp (m_edits m) |} with (e_put k None (m_edits m)).
         rewrite e_view_put, e_get_insert, (d_get_del q k d Hs). destruct (k =? q); [reflexivity|]. apply Hget.
     - unfold checkpoint, inv. cbn [m_maxp m_static m_edits e_checkpoint e_log].
-      repeat split; try assumption; [lia|]. intros q. apply Hget.
+      repeat split; try assumption; try lia.
   Qed.
 
   Lemma inv_run ops : forall m d chk n,
@@ -612,8 +612,8 @@ Section Partial.
     intros Hops Hlen q.
     assert (Hinv0 : inv (mutate t maxp) (flatten t) 0).
     { unfold inv, mutate. cbn [m_maxp m_static m_edits e_empty e_log length].
-      repeat split; try reflexivity; [lia | apply wf_root_sorted, Hwf |].
-      intros q'. unfold m_get. cbn. apply get_spec, Hwf. }
+      repeat split; try reflexivity; try lia; try (apply wf_root_sorted, Hwf).
+      intros q'. unfold m_get. cbn [m_edits m_static e_view e_log e_empty fold_left e_get]. apply get_spec, Hwf. }
     destruct (inv_run ops _ _ (flatten t) 0%nat Hinv0 Hops ltac:(lia)) as (n' & _ & Hst & _ & _ & Hget).
     unfold run_m, dict_after, a_run in *. split; [apply Hget|].
     unfold d_has. rewrite <- Hget. apply m_has_get. rewrite Hst. exact Hwf.
